@@ -14,6 +14,12 @@ ENGINES = [
 NOTES = "Property-based testing and fuzzing only. See DESIGN.md. Known findings: /verif/known_findings.json."
 NOT_APPLICABLE = {}
 CHECKS = {
+    "C20": {
+        "text": "Complete tabulation of is_superset_of over a finite universe per generated hierarchy (every plain class of the context, List/Set/Dict/Tuple instantiations to depth 2, nullable variants, unions of two, mixed-nullability unions, both bracketings of unions of three; ~200-450 terms, all ordered pairs, twice from freshly built names) and exhaustive evaluation of the order and union laws on the matrix; Hypothesis varies the hierarchy.",
+        "design_ref": "DESIGN.md section 6 C20",
+        "note": "Reference order on plain classes = closure of the parents the context itself reports. Variance of generics and None-vs-Any are not asserted. Function types only for reflexivity. The worker's lattice op only tabulates.",
+        "technique": "property-based testing: exhaustive small-scope enumeration of a relation per generated hierarchy, algebraic-law oracle (Hypothesis)",
+    },
     "C19": {
         "text": "Fault injection at a known line of accepted generated programs and samples (7 fault kinds, top level and nested blocks, single- and multi-file), mutated samples, all invalid repository samples and a catalogue of context/lexical/end-of-input errors; the rendered diagnostics are parsed leniently and judged against the source text (path, line/column range, verbatim quoted lines, fault line reported).",
         "design_ref": "DESIGN.md section 6 C19",
